@@ -207,15 +207,35 @@ def transplant(B, gaps, C, atriv=None):
             pending = []
             # closers that open the annotation gap in front of B[b0] close blocks the annotation opened around the
             # PREVIOUS real tokens: they stay in front of the tokens the working tree inserted here
+            # Both bracket systems must stay ONE well-nested sequence: an inserted real closer that closes a real
+            # opener standing inside an annotation block goes first; an annotation closer goes as soon as the
+            # innermost open bracket is its annotation opener.
+            ins = list(C[c0:c1])
             if b0 < len(gaps):
                 g = gaps[b0]
                 k = 0
                 while k < len(g) and g[k].kind == "punct" and g[k].text in ("}", ")", "]"):
                     k += 1
-                if k:
-                    out.extend(g[:k])
+                lead = g[:k]
+                if lead:
+                    pair = {"}": "{", ")": "(", "]": "["}
+                    stack = []   # (opener text, is_annotation)
+                    for t in out:
+                        if t.kind == "punct" and t.text in ("{", "(", "["):
+                            stack.append((t.text, getattr(t, "origin", None) == "annot"))
+                        elif t.kind == "punct" and t.text in pair and stack:
+                            stack.pop()
+                    li = 0
+                    while li < len(lead):
+                        if stack and stack[-1][1] and stack[-1][0] == pair[lead[li].text]:
+                            out.append(lead[li]); stack.pop(); li += 1
+                        elif ins and ins[0].kind == "punct" and ins[0].text in pair and stack and (not stack[-1][1]) and stack[-1][0] == pair[ins[0].text]:
+                            out.append(ins.pop(0)); stack.pop()
+                        else:
+                            break
+                    out.extend(lead[li:])
                     gaps[b0] = g[k:]
-            out.extend(C[c0:c1])
+            out.extend(ins)
             changes.append(("insert", b0, b1, c0, c1))
         else:  # replace
             changes.append(("replace", b0, b1, c0, c1))
